@@ -347,6 +347,14 @@ func mutate(p *rtp.Packet, s siteJ) (applied bool, res string) {
 		case "padsize":
 			p.PaddingSize ^= 0x55
 			applied = true
+		case "csrc_append":
+			if len(p.CSRC) < 15 {
+				p.CSRC = append(p.CSRC, uint32(0xC0000000)|uint32(s.A))
+				applied = true
+			}
+		case "payload_append":
+			p.Payload = append(p.Payload, byte(s.A))
+			applied = true
 		}
 	})
 	return applied, res
@@ -355,6 +363,13 @@ func mutate(p *rtp.Packet, s siteJ) (applied bool, res string) {
 // spareCapacity leaves an empty extension list with spare capacity behind (what a
 // DelExtension of the only element, or a reused receiver, produces).
 func spareCapacity(p *rtp.Packet) {
+	// empty CSRC list / payload with room behind them (what a reused Unmarshal receiver holds)
+	if len(p.CSRC) == 0 {
+		p.CSRC = make([]uint32, 0, 4)
+	}
+	if len(p.Payload) == 0 {
+		p.Payload = make([]byte, 0, 8)
+	}
 	if !p.Extension || len(p.Extensions) != 0 {
 		return
 	}
@@ -413,12 +428,12 @@ func runC20(raw json.RawMessage, w *Writer) {
 		if s.Side == "clone" {
 			t2, o2 = hc, orig2
 		}
-		if s.PreKind != "" && s.PreKind != "payload" && s.PreKind != "padsize" {
+		if s.PreKind != "" && s.PreKind != "payload" && s.PreKind != "padsize" && s.PreKind != "payload_append" {
 			mutate(o2, siteJ{Kind: s.PreKind, A: s.PreA, B: s.PreB})
 		}
 		before := observeH(&o2.Header)
 		applied2, mres2 := false, "ok"
-		if s.Kind != "payload" && s.Kind != "padsize" {
+		if s.Kind != "payload" && s.Kind != "padsize" && s.Kind != "payload_append" {
 			applied2, mres2 = mutate(t2, s)
 		}
 		w.Emit(Ev{"ev": "mutate", "which": "header", "site": s, "applied": applied2, "res": mres2,
